@@ -170,3 +170,17 @@ Proof.
   split; [exact H1|]. split; [exact H2|]. split; [exact H3|discriminate].
 Qed.
 Print Assumptions print_parse_value_refuted.
+
+(* ---- findings F23, F24: full lexical scoping ("a closure means what it meant where it was
+   written") is FALSE of the faithful model for lambda PARAMETERS, which are looked up
+   dynamically at call time.  Witnesses: f(a) = (b -> a + b); (f(1))(2) fails although a = 1 was
+   in scope where the lambda was written; f(a) = (y = a * 2; g(a) = y; g(5)); f(1) gives 10,
+   not 2. ---- *)
+Theorem lexical_scoping_parameters_refuted :
+  (exists cp ts, run false cp [] ts = Err EOther /\ ts = w_escape) /\
+  (exists cp ts, run false cp [] ts = Ok (Some (XV (VAmt (mkAmt 10 0 false None)))) /\ ts = w_dyn).
+Proof.
+  split; [exists w_cp, w_escape; split; [exact escaping_closure_fails|reflexivity]
+         |exists w_cp, w_dyn; split; [exact by_name_variable_sees_callee_parameter|reflexivity]].
+Qed.
+Print Assumptions lexical_scoping_parameters_refuted.
